@@ -27,6 +27,7 @@ var table = map[string]func(*core.Ctx){
 	"C12": props.C12,
 	"C13": props.C13,
 	"C14": props.C14,
+	"C15": props.C15,
 }
 
 func main() {
